@@ -44,8 +44,11 @@ def main():
                     # what is compared across processes: the observation, the model and the league - not the module-globals
                     # snapshot that is part of the in-process state key (a pure memo cache may legally differ with history)
                     h.update(repr((kind, hist, oi, obs, s.last_public if digest is not None else None)).encode())
-                    if digest is not None and digest not in seen:
-                        seen[digest] = 1
+                    # which histories are expanded must not depend on process history either: deduplicate on the public
+                    # state (model + league), not on the full in-process state key that includes module globals
+                    pub = hashlib.blake2b(repr(s.last_public).encode(), digest_size=16).digest() if digest is not None else None
+                    if pub is not None and pub not in seen:
+                        seen[pub] = 1
                         nxt.append(hist + (oi,))
             frontier = nxt
         per_kind[kind] = h.hexdigest()
